@@ -1,6 +1,7 @@
 package main
 
 import (
+	"os"
 	"bytes"
 	"compress/flate"
 	"encoding/binary"
@@ -25,6 +26,14 @@ type recE struct{}
 
 var errInjected = errors.New("injected write failure")
 
+// timeoutErr wraps errInjected and claims to be a transient timeout (net.Error style)
+type timeoutErr struct{}
+
+func (timeoutErr) Error() string   { return "injected timeout" }
+func (timeoutErr) Timeout() bool   { return true }
+func (timeoutErr) Temporary() bool { return true }
+func (timeoutErr) Unwrap() error   { return errInjected }
+
 // recWriter records every Write call; it fails on call number failAt (1-based, 0 = never)
 // after accepting `accept` bytes of that call.
 type recWriter struct {
@@ -45,6 +54,14 @@ func (w *recWriter) Write(p []byte) (int, error) {
 		}
 		w.partial = append([]byte(nil), p[:n]...)
 		w.failed = true
+		// the kind of error varies with the case: plain, timeout-typed, joined with a deadline error -
+		// whatever its type, the caller must see an error that wraps it
+		switch (w.failAt + w.accept) % 3 {
+		case 1:
+			return n, timeoutErr{}
+		case 2:
+			return n, errors.Join(errInjected, os.ErrDeadlineExceeded)
+		}
 		return n, errInjected
 	}
 	w.writes = append(w.writes, append([]byte(nil), p...))
